@@ -118,6 +118,168 @@ theorem certify_ordered_vanishing {bars : List (K × K)} {cps : List (List (K ×
   · obtain ⟨x0, q, rest, rfl, hg⟩ := good_of_wellFormed hwf
     exact good_last hg
 
+/-! ### model glue: `hom_deg` selection and the trailing infinite bar -/
+
+/-- **the requested homological degree selects the diagram used**: the constructor's result depends only
+    on `dgms[hom_deg]` — it is the result for that diagram alone -/
+theorem hom_deg_selects (dgms : List (List (K × Option K))) (h : Nat) (D : List (K × Option K))
+    (hD : dgms[h]? = some D) : exact dgms (h : Int) = exact [D] 0 := by
+  have hne : dgms.isEmpty = false := by
+    cases dgms with
+    | nil => simp at hD
+    | cons _ _ => rfl
+  have hh : ¬ ((h : Int) < 0) := by omega
+  simp [exact, selectBars, hD, hne, hh]
+
+/-- the other diagrams are irrelevant -/
+theorem hom_deg_ignores_others (dgms dgms' : List (List (K × Option K))) (h : Nat) (D : List (K × Option K))
+    (hD : dgms[h]? = some D) (hD' : dgms'[h]? = some D) : exact dgms (h : Int) = exact dgms' (h : Int) := by
+  rw [hom_deg_selects dgms h D hD, hom_deg_selects dgms' h D hD']
+
+/-- a negative degree or an empty list of diagrams is rejected (`ValueError`), a degree beyond the
+    list and an empty selected diagram raise `IndexError` -/
+theorem constructor_rejects (dgms : List (List (K × Option K))) (h : Int) :
+    (h < 0 → exact dgms h = .error .valueError) ∧
+    (dgms = [] → exact dgms h = .error .valueError) ∧
+    (0 ≤ h → dgms ≠ [] → dgms[h.toNat]? = none → exact dgms h = .error .indexError) ∧
+    (0 ≤ h → dgms[h.toNat]? = some [] → exact dgms h = .error .indexError) := by
+  refine ⟨?_, ?_, ?_, ?_⟩
+  · intro hh; simp [exact, selectBars, hh]
+  · intro hd; subst hd; simp [exact, selectBars]
+  · intro hh hd hn
+    have : dgms.isEmpty = false := by cases dgms with | nil => exact absurd rfl hd | cons _ _ => rfl
+    simp [exact, selectBars, not_lt.mpr hh, this, hn]
+  · intro hh hs
+    have : dgms.isEmpty = false := by cases dgms with | nil => simp at hs | cons _ _ => rfl
+    simp [exact, selectBars, not_lt.mpr hh, this, hs, dropTrailingInf]
+
+/-- **a trailing infinite bar is removed**: the bars swept for `D ++ [(b, ∞)]` are the finite bars of `D` … -/
+theorem trailing_inf_removed (D : List (K × Option K)) (b : K) :
+    selectBars [D ++ [(b, none)]] 0 = finiteBars D := by
+  simp [selectBars, dropTrailingInf]
+
+/-- … which are also the bars swept for `D` itself when `D` is non-empty and ends in a finite bar, so the
+    two landscapes coincide -/
+theorem trailing_inf_same_landscape (D : List (K × Option K)) (b : K) (p : K × Option K) (d : K)
+    (hlast : D.getLast? = some p) (hp : p.2 = some d) :
+    exact [D ++ [(b, none)]] 0 = exact [D] 0 := by
+  have e : selectBars [D] 0 = finiteBars D := by
+    obtain ⟨p1, p2⟩ := p
+    simp only at hp
+    subst hp
+    simp [selectBars, dropTrailingInf, hlast]
+  simp only [exact, trailing_inf_removed, e]
+
+/-- only the LAST row is looked at: an infinite bar elsewhere is not removed (the model leaves such
+    diagrams outside its domain instead of computing with `inf` as the code does) -/
+theorem inner_inf_not_removed (D : List (K × Option K)) (p : K × Option K) (d : K)
+    (hlast : D.getLast? = some p) (hp : p.2 = some d) (hinf : ∃ q ∈ D, q.2 = none) :
+    exact [D] 0 = .error .nonFinite := by
+  obtain ⟨p1, p2⟩ := p
+  simp only at hp
+  subst hp
+  obtain ⟨q, hq, hq2⟩ := hinf
+  have hfb : finiteBars D = .error .nonFinite := by
+    clear hlast
+    induction D with
+    | nil => simp at hq
+    | cons a t ih =>
+      obtain ⟨a1, a2⟩ := a
+      cases a2 with
+      | none => rfl
+      | some v =>
+        rcases List.mem_cons.mp hq with rfl | hq'
+        · simp at hq2
+        · simp [finiteBars, ih hq']
+  simp [exact, selectBars, dropTrailingInf, hlast, hfb]
+
 end Field
+
+/-! ### the known finding, as theorems about the model of the *current* code -/
+
+/-- the diagram of the known finding -/
+def knownBars : List (ℚ × ℚ) := [(1, 5), (1, 5), (3, 6)]
+
+/-- what the model of the current code returns for it (this is also what the test suite pins) -/
+def knownOutput : List (List (ℚ × ℚ)) :=
+  [[(1, 0), (3, 2), (4, 1), (9/2, 3/2), (6, 0)], [(1, 0), (3, 2), (4, 1), (9/2, 3/2), (6, 0)], [(3, 0), (4, 1), (5, 0)]]
+
+/-- the model of `compute_landscape` on `[(1,5),(1,5),(3,6)]`: the shortcut fires once and the second
+    function is a copy of the first -/
+theorem shortcut_model_output :
+    (sweep knownBars).map (fun o => (o.cps, o.fired)) = some (knownOutput, 1) := by decide +kernel
+
+/-- the true second function at `t = 9/2` is `1/2` (the tent of `(1,5)`) -/
+theorem known_landscape_value : landscape knownBars 1 (9/2) = 1/2 := by
+  have hp : [((3:ℚ), (6:ℚ)), (1, 5), (1, 5)].Perm knownBars := by decide
+  rw [landscape_eq_of_order hp (9/2) (by decide +kernel) 1]
+  decide +kernel
+
+/-- **`shortcut_counterexample`**: the model of the current code on `[(1,5),(1,5),(3,6)]` has the shortcut
+    fired and differs from the mathematical landscape at depth index 1 (the second function), `t = 9/2`:
+    it returns `3/2`, the definition gives `1/2` -/
+theorem shortcut_counterexample :
+    ∃ o, sweep knownBars = some o ∧ 0 < o.fired ∧
+      evalDepth o.cps 1 (9/2) = 3/2 ∧ landscape knownBars 1 (9/2) = 1/2 ∧
+      evalDepth o.cps 1 (9/2) ≠ landscape knownBars 1 (9/2) := by
+  have h := shortcut_model_output
+  cases hs : sweep knownBars with
+  | none => rw [hs] at h; simp at h
+  | some o =>
+    rw [hs] at h
+    simp only [Option.map_some, Option.some.injEq, Prod.mk.injEq] at h
+    obtain ⟨h1, h2⟩ := h
+    have e : evalDepth o.cps 1 (9/2) = 3/2 := by rw [h1]; decide +kernel
+    refine ⟨o, rfl, by omega, e, known_landscape_value, ?_⟩
+    rw [known_landscape_value, e]
+    decide +kernel
+
+/-- the checker rejects that output (so the harness sees the finding through the same verified path) … -/
+theorem certify_rejects_shortcut_output : certify knownBars knownOutput = false := by decide +kernel
+
+/-- … and accepts the sweep's output without the shortcut, which therefore *is* the landscape, for all `t`, `k` -/
+theorem noShortcut_on_known :
+    ∃ L, sweepNoShortcut knownBars = some L ∧ certify knownBars L = true ∧
+      ∀ k t, evalDepth L k t = landscape knownBars k t := by
+  refine ⟨[[(1, 0), (3, 2), (4, 1), (9/2, 3/2), (6, 0)], [(1, 0), (3, 2), (5, 0)], [(3, 0), (4, 1), (5, 0)]],
+    by decide +kernel, by decide +kernel, fun k t => certify_sound (by decide +kernel) k t⟩
+
+/-! ### non-vacuity: the hypotheses are met by concrete non-trivial inputs -/
+
+/-- `certify … = true` is met by the 5-bar example of Bubenik–Dlotko's paper with the critical pairs
+    the real code returns (so `certify_sound` says something about it) -/
+example : certify (α := ℚ) [(1, 5), (2, 8), (3, 4), (5, 9), (6, 7)]
+    [[(1, 0), (3, 2), (7/2, 3/2), (5, 3), (13/2, 3/2), (7, 2), (9, 0)],
+     [(2, 0), (7/2, 3/2), (5, 0), (13/2, 3/2), (8, 0)],
+     [(3, 0), (7/2, 1/2), (4, 0), (6, 0), (13/2, 1/2), (7, 0)]] = true := by decide +kernel
+
+/-- the tolerance version accepts a perturbed candidate and rejects it at `eps = 0` -/
+example : certifyTol (α := ℚ) (1/100) [(0, 2)] [[(0, 0), (1, 101/100), (2, 0)]] = true
+    ∧ certify (α := ℚ) [(0, 2)] [[(0, 0), (1, 101/100), (2, 0)]] = false := by decide +kernel
+
+/-- touching, nested, equal-birth, equal-death and duplicate bars, through the model and the checker -/
+example : (sweep (α := ℚ) [(0, 2), (2, 4), (0, 4), (1, 4), (0, 4)]).map (fun o => certify [(0, 2), (2, 4), (0, 4), (1, 4), (0, 4)] o.cps)
+    = some true := by decide +kernel
+
+/-- hypotheses of the glue theorems -/
+example : ([[((0:ℚ), some (3:ℚ)), (1, some 4)], [(1, some 4)]] : List (List (ℚ × Option ℚ)))[1]? = some [(1, some 4)] := rfl
+example : ([((0:ℚ), some (3:ℚ)), (1, some 4)] : List (ℚ × Option ℚ)).getLast? = some (1, some 4) := rfl
+
+/-! ### stretch goal (stated, not proved)
+
+`sweep_correct_of_not_fired`: whenever the repeated-bar shortcut does not fire, the sweep's output is
+the landscape at every `t` and `k`.  A direct proof needs the sortedness invariant of the work list under
+re-insertion and a pointwise multiset invariant (DESIGN.md, C03); it is **not** proved here.  What is
+proved instead is `certify_sound`, which the harness applies to the real code's output per diagram. -/
+
+/-- [S] statement only -/
+def sweep_correct_of_not_fired_statement : Prop :=
+  ∀ (bars : List (ℚ × ℚ)) (o : Out ℚ), (∀ p ∈ bars, p.1 < p.2) → sweep bars = some o → o.fired = 0 →
+    ∀ k t, evalDepth o.cps k t = landscape bars k t
+
+/-- [S] statement only: without the shortcut the sweep is correct on every diagram -/
+def sweepNoShortcut_correct_statement : Prop :=
+  ∀ (bars : List (ℚ × ℚ)) (L : List (List (ℚ × ℚ))), (∀ p ∈ bars, p.1 < p.2) → sweepNoShortcut bars = some L →
+    ∀ k t, evalDepth L k t = landscape bars k t
 
 end PersimVerif.C03
